@@ -240,7 +240,7 @@ func genC07iPlan(r *zsim.Rng) *c07iPlan {
 			p.AcceptNth = "" // consecutive blanks inside the long records are not what the field model is about
 		}
 	}
-	p.End = []string{"enter", "enter", "esc", "alt-e", "f2", "alt-p", "alt-o", "alt-n", "ctrl-c"}[r.Intn(9)]
+	p.End = []string{"enter", "enter", "esc", "alt-e", "f2", "alt-p", "alt-o", "alt-n", "ctrl-c", "f3"}[r.Intn(10)]
 	p.OneK = -1
 	if !p.Select1 && !p.Exit0 && r.Chance(1, 8) {
 		p.LoadAccept = true
@@ -306,7 +306,9 @@ func runC07i(c *runCtx) {
 	defer func() { sp.Args = nil }()
 	add := func(a ...string) { sp.Args = append(sp.Args, a...) }
 	add("--bind", "alt-u:up", "--bind", "alt-d:down", "--bind", "alt-t:toggle-in", "--bind", "alt-p:print-query", "--bind", "alt-z:change-query(zqzq)",
-		"--bind", "alt-o:accept-or-print-query", "--bind", "alt-n:accept-non-empty")
+		"--bind", "alt-o:accept-or-print-query", "--bind", "alt-n:accept-non-empty",
+		// what follows accept in the same list is not run: the session has ended
+		"--bind", "f3:accept+clear-query+clear-selection+last")
 	if plan.Prints {
 		add("--bind", "alt-r:print(queued)", "--bind", "alt-y:print()")
 	}
@@ -609,9 +611,9 @@ func runC07i(c *runCtx) {
 			}
 			wantCode = ExitOk
 			c.count("probe.one_accept", 1)
-		case "enter", "alt-e", "f2":
+		case "enter", "alt-e", "f2", "f3":
 			key := ""
-			if end != "enter" {
+			if end == "alt-e" || end == "f2" {
 				key = end
 			}
 			header(key)
